@@ -43,20 +43,25 @@ package cache
 //@ trusted
 //@ readonly
 //@ ensures imp(result1 != nil, result0 == nil)
-//@ ensures imp(result1 == nil, forall(j, 0, len(pkgPath), exists(i, 0, len(result0), result0[i].path == pkgPath[j])))
+//@ ensures imp(result1 == nil, forall(j, 0, len(pkgPath), 0 <= ListIdx(j) && ListIdx(j) < len(result0) && result0[ListIdx(j)].path == pkgPath[j]))
 
 //@ func (*Impl).Prepare
 //@ prop C20
 //@ requires p.h != nil && CacheWf(p)
 //@ assigns heapexcept(io.ReadCloser; []string)
-//@ loop 0 invariant h == p.h && CacheWf(p) && forall(k2, 0, rangeidx + 1, Recorded(p, ret[k2].path))
-//@ loop 1 invariant pkg != nil && pkg.hash == h(v.path, true) && forall(d, 0, len(pkg.deps), h(pkg.deps[d].path, false) == pkg.deps[d].hash) && fresh(pkg)
+//@ loop 0 invariant h == p.h
+//@ loop 0 invariant CacheWf(p)
+//@ loop 0 invariant forall(k2, 0, rangeidx + 1, RecordedSelf(p, ret[k2].path))
+//@ loop 1 invariant pkg != nil && pkg.hash == h(v.path, true) && fresh(pkg)
+//@ loop 1 invariant forall(d, 0, len(pkg.deps), h(pkg.deps[d].path, false) == pkg.deps[d].hash)
+//@ loop 1 invariant len(pkg.deps) == CountKept(h, v.deps, rangeidx + 1)
 //@ ensures p.nlist == old(p.nlist) + 1 && p.h == old(p.h)
 //@ ensures imp(result != nil, gsame(syncmap, addr(p.cache)))
 //@ ensures CacheWf(p)
-//@ ensures imp(result == nil, forall(j, 0, len(pkgPath), Recorded(p, pkgPath[j])))
+//@ ensures imp(result == nil, forall(j, 0, len(pkgPath), RecordedSelf(p, pkgPath[j])))
 
 //@ func (*Impl).Find
 //@ prop C20
 //@ requires p.h != nil && CacheWf(p) && os.ErrNotExist != nil
-//@ ensures imp(result0 != nil && result1 == nil, Recorded(p, pkgPath))
+//@ ensures imp(result0 != nil && result1 == nil, RecordedSelf(p, pkgPath))
+//@ ensures imp(result0 != nil && result1 == nil && p.nlist == old(p.nlist), Recorded(p, pkgPath) && EntryOf(p, pkgPath).hash != HashInvalid)
